@@ -11,6 +11,7 @@ import (
 	"encoding/json"
 	"fmt"
 	"math/rand"
+	"net/http"
 	"net/http/httptest"
 	"strconv"
 	"strings"
@@ -90,6 +91,18 @@ func c18Served(c *core.Ctx) {
 		if err != nil || msg == nil {
 			c.Note("c18 served leg: GetMessage: %v", err)
 			continue
+		}
+		// the other views of the same message are opened first, as a user clicking through the UI does: what they do must not change what the
+		// message view serves afterwards (handlers share the package-level sanitiser policy)
+		if r.Intn(3) == 0 {
+			for _, h := range []func(http.ResponseWriter, *http.Request, *web.Context) error{webui.MailboxHTML, webui.MailboxSource} {
+				func() {
+					defer func() { _ = recover() }()
+					_ = h(httptest.NewRecorder(), httptest.NewRequest("GET", "/serve/mailbox/box/"+msg.ID+"/x", nil),
+						&web.Context{Vars: map[string]string{"name": "box", "id": msg.ID}, Manager: mgr, RootConfig: root, WebConfig: root.Web})
+				}()
+			}
+			c.H("served:other-views-opened-first")
 		}
 		rec := httptest.NewRecorder()
 		var herr error
